@@ -18,6 +18,12 @@ CLAIMED["C10"] = dict(engine="KeyAuthority", technique="TLC model checking of Ke
 CLAIMED["C11"] = dict(engine="KeyAuthority", technique="TLC model checking of KeyAuthority.tla (invariant in every state = every write prefix) + reload at every prefix of recorded real write sequences + trace validation",
    text="C11_StoreConsistent is an invariant of every reachable state of the model, hence of every prefix of every write order; on the real code the storage double records the object writes of real bootstraps and rotations (repeated to vary upload order), every prefix is materialised and read back through a fresh gcsca instance, and the recorded logs are validated against the trace specification, which rejects a manifest written ahead of a certificate it names.",
    note="Trusted: TLC, object-atomic writes. Upload order of pending certificates depends on Go map iteration; orders seen are reported in the evidence.", ref="5/C11")
+CLAIMED["C12"] = dict(engine="KeyAuthority", technique="TLC model checking of KeyAuthority.tla over command histories + replay of every emitted history through the cobra commands",
+   text="TLC checks the chain-of-trust invariants (certificate shapes at issuance and as stored, serial succession, only-primary-signs, no name reuse, no clobber, total wipeout) on every state of all command histories up to the bound; every emitted command history (including re-bootstrap over a populated authority) is executed through cmd.MakeApp for memkm+memca, localkm+gcsca and localkm+localca with prefix sharing, and after each command the real certificates, key store and objects are read back and the C12 predicates evaluated.",
+   note="Trusted: TLC, crypto/x509 parsing. Readings: 'every signing certificate' = the one a command issues plus the recorded primary's; no-clobber applies to stored objects (gcsca/localca), not to the in-memory memca; only-primary-signs is evaluated on histories without failed/refused commands.", ref="5/C12")
+CLAIMED["C03"] = dict(engine="KeyAuthority", technique="TLC model checking of KeyAuthority.tla (issued set) + replay of emitted bootstrap/rotate/endorse histories on the real pipeline with re-verification after every step",
+   text="In the model every endorsement ever issued stays verifiable under the root in every later state (rotations, failed rotations, crashes); TLC-emitted histories bootstrap.(rotate|endorse)* are executed on the real commands and endorse.VirtualFirmware with seeded requests, and after every step every endorsement produced so far is verified with verify.Endorsement at both ends of and inside the validity window, each listed measurement for its configuration, and the documented openssl flow is redone in Go over the inspect outputs.",
+   note="Trusted: TLC, crypto/rsa, crypto/x509, protobuf. Requests are seeded samples per history step, not exhaustive.", ref="5/C03")
 PENDING = {}
 import os
 props=[json.loads(l) for l in open('/verif/properties.jsonl')]
